@@ -241,6 +241,10 @@ func (ap *app) runConduct(bctx context.Context) error {
 	signal.Notify(signalCh, os.Interrupt, syscall.SIGHUP, syscall.SIGTERM)
 	infoCh := make(chan os.Signal, 1)
 	signal.Notify(infoCh, syscall.SIGUSR1)
+	// Nobody reads signalCh once the play is over: give the termination
+	// signals their default effect back, so that the process can still
+	// be terminated while the results are plotted or uploaded.
+	defer signal.Stop(signalCh)
 
 	// Set up a cancellable context for the entire start command.
 	// The context will be canceled at the end.
